@@ -6,6 +6,8 @@
 
 use std::collections::HashMap;
 
+mod c18;
+
 /// A component in a box, driven through the line protocol.
 pub trait VerifBox {
     /// Execute one operation and return its canonical observation.
@@ -18,13 +20,14 @@ pub fn new_box(area: &str) -> Option<Box<dyn VerifBox>> {
         "c17" => Some(Box::new(
             crate::protocol::libp2p::kademlia::verif_c17::StoreBox::new(),
         )),
+        "c18" => Some(Box::new(c18::PeerIdBox::new())),
         _ => None,
     }
 }
 
 /// Names of all adapters.
 pub fn areas() -> Vec<&'static str> {
-    vec!["c17"]
+    vec!["c17", "c18"]
 }
 
 /// Decode a hex string.
